@@ -18,6 +18,7 @@ func init() {
 			"Not decided: numerical correctness of strconv and the digit loop, zip/csv decoding themselves.",
 		Rules: []Rule{
 			{Name: "SVC", Doc: "calendar_dates: range extension guards, exception table, write-back (the rules of C11): Service fields carry what the rows say", MinInstances: 5, Run: runServiceRules},
+			{Name: "REJECT", Doc: "a row is kept or rejected for what it says itself: no test that decides a rejection reads a loop-carried variable or a collection the row loop fills (a same-as-previous-row or already-seen guard loses valid rows of interleaved trips and shapes)", MinInstances: 7, Run: runRejectInert},
 			{Name: "NUM", Doc: "numbers in cells are read as decimal (constant base 10) and with float64 precision; a float decoder returns strconv.ParseFloat's result, not a value of its own arithmetic", MinInstances: 2, Run: func(c *Ctx) { runNumericDecoders(c, staticParseFns(c), "NUM") }},
 			{Name: "DEF", Doc: "the optional-column readers return the cell of a column that exists, at whatever position it stands (index 0 included), and the default only for an absent column or a blank cell (the summary C10 is built on)", MinInstances: 10, Run: runDefaults},
 			{Name: "SCAN", Doc: "a loop that does something for each element is not left early (no break out of a processing loop)", MinInstances: 1, Run: func(c *Ctx) { runFullScan(c, staticParseFns(c), "SCAN") }},
